@@ -2,6 +2,7 @@ package main
 
 import (
 	"fmt"
+	"os"
 	"sort"
 
 	"go.flow.arcalot.io/pluginsdk/schema"
@@ -350,7 +351,7 @@ func (g *c14gen) scalar() *sx.Node {
 	case 2:
 		return dBool()
 	case 3:
-		return dEnumStrD(nil, []string{"x", "y"}, nil)
+		return dEnumStrD(nil, []string{"x", "y"}, []string{"ex", "why"}) // named values: an enum whose values carry no display cannot be described (D29)
 	}
 	return dInt(ip(0), ip(50), nil)
 }
@@ -568,6 +569,9 @@ func rebuiltFromDescription(s, inl, order *sx.Node) *sx.Node {
 			if sc, isScope := buildSchema(n).(*schema.ScopeSchema); isScope {
 				_, err := sc.SelfSerialize()
 				ok = err == nil
+				if err != nil && os.Getenv("VERIF_DEBUG") != "" {
+					fmt.Fprintf(os.Stderr, "c14: not describable: %v\n", err)
+				}
 			}
 		}()
 		if !ok {
